@@ -118,4 +118,39 @@ def check (env : Env) (table : List (String × Expr)) (factorComps : List String
         (List.range n).all (fun r => blockRowOk implGroups (cells.getD r none) (x.getD r []) (z.getD r [])),
         cells.all (fun c => match c with | some l => implGroups.contains l | none => false)⟩
 
+/-! ### The same block structure on the objects returned by `evaluate_new_data`
+
+"every row is non-zero only in the slots of its own group and carries e's values there" is a
+statement about every block one can read from a group matrix, also from the one derived for a new
+frame (`new[name]`, i.e. through the derived object's own slices).  There the slots are the training
+groups of the term, in their training order; a row whose grouping cell was not seen in training
+(possible under the 'warning' / 'silent' policies) has the ONE appended trailing slot as its own,
+and that slot exists iff there is such a row. -/
+
+/-- name of the appended slot (any string that is no training group would do) -/
+def newSlot : String := "__NEW_FACTOR_GROUP__"
+
+structure NewVerdict where
+  blocksOk : Bool
+  anyUnseen : Bool
+
+/-- `env` holds the NEW frame; `trainGroups` the group names of the term; `x` the effect columns on
+the new frame; `z` the block read from the derived object. -/
+def checkNew (env : Env) (table : List (String × Expr)) (factorComps : List String)
+    (trainGroups : List String) (x z : Matrix) : M NewVerdict := do
+  let vals ← factorComps.mapM (componentValues env table)
+  let n := env.frame.nrows
+  let cells := (List.range n).map (fun r => cellLabel (vals.map (fun v => (v.getD r none))))
+  if cells.any Option.isNone then .error (.unmodelled "missing grouping value in new data")
+  else if trainGroups.contains newSlot then .error (.unmodelled "a training group named like the new slot")
+  else
+    let own : List (Option String) := cells.map (fun c => c.map (fun l =>
+      if trainGroups.contains l then l else newSlot))
+    let anyUnseen := own.contains (some newSlot)
+    let groups := if anyUnseen then trainGroups ++ [newSlot] else trainGroups
+    pure ⟨x.length == n && z.length == n &&
+          (List.range n).all (fun r =>
+            blockRowOk groups (own.getD r none) (x.getD r []) (z.getD r [])),
+          anyUnseen⟩
+
 end FormulaeModel.Spec.C05
